@@ -35,7 +35,7 @@ TRUSTED = [
 ASSUMPTIONS = [
     "keys of a call's **kwargs are pairwise different (Python guarantees it) and are not names of parameters of the entry point",
     "an `ax` argument and matplotlib objects given as option values while plot=True are outside the frame claim "
-    "(matplotlib autoscaling writes vmin/vmax into a norm object it is given); with plot=False they are inside",
+    "(matplotlib autoscaling fills the unset limits of a norm object it is given; a limit that was set is inside the claim); with plot=False they are inside",
     "thick maps are called with an explicit window (dx, dz): the model's depth resolution needs the window extents",
     "resolutions are positive; the depth-resolution comparison is skipped within 1e-9 of a rounding tie",
     "Layer.update fills its Layer in place by design; its argument values are covered by the frame claim, `self` is not",
@@ -277,8 +277,8 @@ def check_sequence(osy, case, model, spec, steps, refs, out=None):
         plot_lane = bool(call.get("plot")) or fn in ("histogram1d", "scatter", "plot")
         # ---------------- frame
         for root, path, a, b in st["diffs"]:
-            if root == "norm_objects" and plot_lane:
-                continue                      # ASSUMPTIONS: matplotlib autoscaling a norm object it is given
+            if root == "norm_objects" and plot_lane and str(a).strip("'") == "None":
+                continue                      # ASSUMPTIONS: matplotlib autoscaling fills the *unset* limits of a norm object it is given
             viol.append({"what": f"{tag} changed an argument object: {path}: {a} -> {b}", "case": case, "call_index": k,
                          "call_site": site, "input_class": frame_class(fn, root, path),
                          "expected": "argument objects unchanged", "actual": {"path": path, "before": a, "after": b}})
@@ -286,7 +286,7 @@ def check_sequence(osy, case, model, spec, steps, refs, out=None):
         if hv != st["store"]:
             dis.append((case, f"{tag}: argument objects after the call: impl {json.dumps(st['store'])[:400]} vs model {json.dumps(hv)[:400]}"))
         extra = [d for d in st["diffs"] if d[0] not in ("resolution", "layers", "option_dicts")
-                 and not (d[0] == "norm_objects" and plot_lane)]
+                 and not (d[0] == "norm_objects" and plot_lane and str(d[2]).strip("'") == "None")]
         if extra:
             dis.append((case, f"{tag}: impl changed {extra[0][1]}, which the model leaves alone"))
         # ---------------- errors
@@ -588,8 +588,12 @@ def gen_sequence(r, tier, plot_lane=False, malformed=False):
     case["optdicts"].append(img_call)                                        # 0: map / histogram2d
     h1kw = [[k, r.choice(v)] for k, v in H1_KW.items() if r.random() < 0.5]
     case["optdicts"].append({**h1_call, "kwargs": h1kw})                     # 1: histogram1d
-    case["optdicts"].append({"kwargs": [[k, r.choice(v)] for k, v in SC_KW.items() if r.random() < 0.6],
-                             **({"norm": r.choice(["log", "linear"]), "vmin": "1/2"} if r.random() < 0.4 else {})})   # 2: scatter
+    sc_norm = {"norm": r.choice(["log", "linear"]), "vmin": "1/2"} if r.random() < 0.4 else {}
+    if r.random() < 0.3:
+        # a ready-made norm object with both limits set (nothing for matplotlib to autoscale) next to call-level limits
+        case["normobjs"].append({"cls": r.choice(["Normalize", "LogNorm"]), "vmin": "1", "vmax": "8"})
+        sc_norm = {"norm": f"obj:{len(case['normobjs']) - 1}", "vmin": "2", "vmax": "4"}
+    case["optdicts"].append({"kwargs": [[k, r.choice(v)] for k, v in SC_KW.items() if r.random() < 0.6], **sc_norm})   # 2: scatter
     case["optdicts"].append({"kwargs": [[k, r.choice(v)] for k, v in PL_KW.items() if r.random() < 0.6]})         # 3: plot
     case["res"] = r.choice([[["x", 8]], [["x", 8]], [["x", 4], ["y", 8]], [["y", 16]], [], [["x", 4], ["y", 4], ["z", 2]], None])
     ncalls = r.choice([2, 2, 3, 3, 4])
